@@ -6,7 +6,6 @@
 (* (AddMacro, AddConnect, ModTer, Label, Write, ReadBack) with the graph observed after it, validated       *)
 (* action by action, the final graph again by the P-layer (invariant Final).                                *)
 EXTENDS SeqInput, SequencesExt, Json, IOUtils
-CONSTANT Mode      \* "P": results are judged by the P-layer; "I": by running the I-layer (with the deviation flags of Dev) to its end
 VARIABLES tid, l
 Doc == JsonDeserialize(IOEnv.TRACE_FILE)
 Traces == Doc.traces
@@ -20,18 +19,13 @@ ObsOK(o) == /\ o.numok
             /\ Cardinality(ToSet(o.edges)) = Len(o.edges)
             /\ \A r \in 1..o.n : Cardinality(ToSet(o.lab[r])) = Len(o.lab[r])
             /\ WellFormed(ObsG(o))
-TResult == /\ Mode = "P" /\ Ev.act = "Result" /\ l' = l + 1
+TResult == /\ Ev.act = "Result" /\ l' = l + 1
            /\ LET e == Expected(inp) IN
               /\ Ev.rej = e.rej
               /\ Ev.rej \/ (ObsOK(Ev.g) /\ Matches(ObsG(Ev.g), e))
               \* dsDNA: the second strand of the result, completed once more by the code, gives back the first strand
               /\ (inp.fam = "dsdna" /\ ~Ev.rej) => (ObsOK(Ev.back) /\ ObsG(Ev.back) = Strand(inp))
            /\ UNCHANGED vars
-\* Mode "I" (classification of a known finding): the I-layer runs silently, its final graph must be the observed one
-TSilent == /\ Mode = "I" /\ Ev.act = "Result" /\ Next /\ pc' \notin {"done", "rejected"} /\ l' = l
-TFinish == /\ Mode = "I" /\ Ev.act = "Result" /\ Next /\ pc' \in {"done", "rejected"} /\ l' = l + 1
-           /\ Ev.rej = (pc' = "rejected")
-           /\ Ev.rej \/ (ObsOK(Ev.g) /\ g' = ObsG(Ev.g))
 TStep == /\ Ev.act # "Result" /\ l' = l + 1
          /\ Next /\ last' = Ev.act
          /\ ObsOK(Ev.g)
@@ -40,7 +34,7 @@ TStep == /\ Ev.act # "Result" /\ l' = l + 1
          /\ (pc' = "done") => Matches(ObsG(Ev.g), Expected(inp))
 TInit == /\ tid \in 1..Len(Traces) /\ l = 1 /\ inp = Traces[tid].inp /\ InitRest
 TNext == /\ l <= Len(Traces[tid].events)
-         /\ (TResult \/ TStep \/ TSilent \/ TFinish)
+         /\ (TResult \/ TStep)
          /\ tid' = tid
 TSpec == TInit /\ [][TNext]_<<vars, tid, l>>
 \* a stepwise trace is complete only if the builder has finished
